@@ -521,7 +521,7 @@ def rule_T(ctx):
             res = t.call(method, *args)
         except orders.Unsupported as ex:
             raise shape_error('Track.%s not interpretable: %s' % (method, ex), f.loc())
-        except (orders.Raised, TypeError, AttributeError, IndexError, KeyError, ValueError) as ex:
+        except orders.PROGRAM_ERRORS as ex:
             found.setdefault((method, 'fails'), (f, 'Track.%s converts the track' % method, {'case': label, 'exception': '%s: %s' % (type(ex).__name__, str(ex)[:160])}))
             return
         pts = t.fields['_Track__POINTS']
@@ -723,7 +723,7 @@ def _numeric(ctx):
             return True, thunk()
         except orders.Unsupported as ex:
             raise shape_error('%s not interpretable: %s' % (f.qual, ex), f.loc())
-        except (ZeroDivisionError, ValueError, TypeError, AttributeError, IndexError, KeyError, OverflowError, orders.Raised, RecursionError) as ex:
+        except orders.PROGRAM_ERRORS as ex:
             return False, '%s: %s' % (type(ex).__name__, str(ex)[:160])
     LONS = (-180.0, -179.9999, -120.5, -90.0, -1e-9, 0.0, 2.3522, 45.0, 90.0, 135.25, 179.9999, 180.0)
     LATS = (-89.9, -67.25, -45.0, -1e-7, 0.0, 1e-7, 23.5, 48.8566, 80.0, 89.9)
